@@ -62,6 +62,7 @@ class Ctx(object):
         self.side = side         # "xdis" | "cpython"
         self.long_type = None
         self.unicode_type = None
+        self.host_kinds = False  # True: a Python 2 byte string held as host bytes and one held as host text get different tokens
         if side == "xdis":
             from xdis.cross_types import LongTypeForPython3, UnicodeForPython3
             self.long_type = LongTypeForPython3
@@ -90,7 +91,7 @@ def tokens(v, ctx, out):
         out.append(T("unicode", len(raw), bytearray(raw)))
     elif t is bytes:
         # host bytes: a Python 3 file's bytes object, or a Python 2 file's byte string (str8)
-        out.append(T("bytes" if ctx.py3 else "str8", len(v), bytearray(v)))
+        out.append(T("bytes" if ctx.py3 else ("str8:bytes" if ctx.host_kinds else "str8"), len(v), bytearray(v)))
     elif t is unicode:
         if PY3:
             e = v.encode("utf-8", "surrogatepass")
